@@ -44,6 +44,8 @@ def run_impl(case):
         spec = impl.make_spec("ond", text, vs)
         spec.parse()
         spec.pastify()
+        if impl.twice(text):
+            spec.pastify()          # the result has no future operator: a second pastify() must not change it
         printed = spec.spec_print()
         outs = []
         for i in range(n):
